@@ -86,7 +86,7 @@ def verify(src, sid):
 def detect(sid, tier="quick", props=None):
     dst = os.path.join(SEEDED, sid)
     meta = json.load(open(os.path.join(dst, "meta.json")))
-    props = props or [meta["property"]]
+    props = props or meta.get("detect_with") or [meta["property"]]
     d = worktree("detect-" + sid)
     out_all = {}
     try:
